@@ -670,8 +670,8 @@ theorem step_sinv (u : List Nat) (s s' : Sys) (l : Label) (hI : SInv u s) (h : s
     · injection h with h; subst h
       exact SInv.api_plain (s := s) s.tasks _ (hI.1.pres hp) (tasks_mono hp.len hI.2) rfl (by simp)
     · injection h with h; subst h
-      have hp2 : Pres s.core { s.core.emit (.apiOpen s.core.now) with isOpen := true } :=
-        Pres.plain [.apiOpen s.core.now] rfl (List.Sublist.refl _) (.inl rfl) rfl (by simp [Plain, lossEv])
+      have hp2 : Pres s.core { s.core.emit (.apiOpen s.core.now) with isOpen := true, queue := [] } :=
+        Pres.plain [.apiOpen s.core.now] rfl (List.nil_sublist _) (.inl rfl) rfl (by simp [Plain, lossEv])
       refine SInv.api_plain (s := s) s.tasks _ (hI.1.pres hp2) (tasks_mono hp2.len hI.2) rfl ?_
       intro p hp'; simp only [List.mem_singleton] at hp'; subst hp'; rfl
   | apiClose =>
